@@ -30,3 +30,16 @@
              (forall ((i Int)) (! (=> (and (<= bo i) (< i (+ bo bn))) (= (select a (+ ao (+ j (- i bo)))) (select b i)))
                                   :pattern ((select b i))))))
      :pattern ((winI a ao an b bo bn j)))) :named def.winI))
+; ---- x-c01: textbook shape of //seq.join on arrays ------------------------------------------------------
+; alenV v: number of items of the sequence value v (an Array's value slice; 0 for the empty set). DEFINITION.
+(declare-fun alenV (Val) Int)
+(assert (! (forall ((v Val)) (! (= (alenV v) (ite (= (tagof v) tag.rel.Array) (pj.rel.Array.2.values_len v) 0)) :pattern ((alenV v)))) :named def.alenV))
+; jstart a lo i jn: position, in the join of the sequences a[lo], a[lo+1], ... with a joiner of length jn, at which
+; element i (absolute row position, i >= lo) starts:  jstart(lo) = 0,  jstart(i) = jstart(i-1) + |a[i-1]| + jn.
+; So the joiner stands before every element except the first whatever the lengths of the earlier elements are, and
+; the join of a[lo..hi) (hi > lo) has length jstart(hi) - jn. DEFINITION (recursive; unfolded at the positions read).
+(declare-fun jstart ((Array Int Val) Int Int Int) Int)
+(assert (! (forall ((a (Array Int Val)) (lo Int) (jn Int)) (! (= (jstart a lo lo jn) 0) :pattern ((jstart a lo lo jn)))) :named def.jstart.x01x1))
+(assert (! (forall ((a (Array Int Val)) (lo Int) (i Int) (jn Int) (j Int))
+  (! (=> (and (< lo i) (= j (- i 1))) (= (jstart a lo i jn) (+ (jstart a lo j jn) (alenV (select a j)) jn)))
+     :pattern ((jstart a lo i jn) (select a j)))) :named def.jstart.x01x2))
